@@ -297,6 +297,43 @@ def run_iterpos(case):
     return res
 
 
+def run_midrun(case):
+    """A run with the user's random_state: the library may seed once, before the first draw of the run, and never again;
+    it must not create generators that bypass the seeded stream (unseeded default_rng)."""
+    res = Res()
+    cfg = dict(case["cfg"])
+    s, ll, c = make_sampler(cfg)
+    with env.quiet():
+        with OwnedRandom(77, audit=True) as tape:
+            try:
+                s.run(n_total=c.get("n_total", 64), progress=False)
+                s.posterior(resample=True)
+            except Exception as e:
+                res.bump("aborted_runs")
+    res.evals += 1
+    res.trans += len(tape.log)
+    res.states += 1
+    res.traces += 1
+    lib = [(i, name, where) for i, (name, where) in enumerate(tape.log) if where and "/tempest/" in where]
+    draws_before = 0
+    seeds = 0
+    for i, name, where in lib:
+        if name == "seed":
+            seeds += 1
+            if draws_before > 0:
+                res.violate(f"reseed:mid-run:{where.split('/tempest/')[-1].split(':')[0]}", f"np.random.seed called by tempest/{where.split('/tempest/')[-1]} after {draws_before} random draws of the same run "
+                            f"(random_state={cfg.get('random_state')}): the stream is reset in the middle of a run, successive iterations replay the same innovations (cfg={cfg})", dict(case))
+                break
+        elif name not in ("get_state", "set_state"):
+            draws_before += 1
+    for where, a, k in tape.foreign:
+        if "/tempest/" in where and not a and not k.get("seed"):
+            res.violate(f"unseeded-generator:{where.split('/tempest/')[-1].split(':')[0]}", f"tempest/{where.split('/tempest/')[-1]} creates an unseeded numpy Generator: its draws ignore random_state and differ from run to run (cfg={cfg})", dict(case))
+            break
+    res.outcome(("midrun", tuple(sorted((k, repr(v)) for k, v in cfg.items())), seeds, draws_before), nontrivial=True)
+    return res
+
+
 class _NullCtx:
     def __enter__(self):
         return self
@@ -305,7 +342,7 @@ class _NullCtx:
         return False
 
 
-KINDS = {"seq": run_seq, "repro": run_repro, "iterpos": run_iterpos}
+KINDS = {"seq": run_seq, "repro": run_repro, "iterpos": run_iterpos, "midrun": run_midrun}
 
 FACTORS = [
     ("sample", ["tpcn", "rwm"]),
@@ -313,6 +350,7 @@ FACTORS = [
     ("clustering", [False, True]),
     ("vv", [None, 0.5]),
     ("eval", ["scalar", "vec", "blobs"]),
+    ("target", ["gauss", "hole", "bimodal"]),
 ]
 
 
@@ -330,4 +368,8 @@ def plan(ctx):
     ctx.explore("reproducibility", rep)
     it = [{"kind": "iterpos", "cfg": dict(clustering=True, sample=k, resample=r, n_particles=16, n_total=64, target="bimodal")} for k in ("tpcn", "rwm") for r in ("mult", "syst")]
     ctx.explore("per-iteration-stream", it)
+    mid = [{"kind": "midrun", "cfg": dict(r, n_particles=16, n_total=64, random_state=rs)} for r in rows for rs in (5, None)]
+    mid += [{"kind": "midrun", "cfg": dict(sample=k, resample=r, clustering=cl, target=t, n_particles=16, n_total=64, random_state=rs)}
+            for k in ("tpcn", "rwm") for r in ("mult", "syst") for cl in (False, True) for t in ("gauss", "hole") for rs in (5,)]
+    ctx.explore("seeding-discipline", mid)
     ctx.bounds.update({"repro_configs": len(rows), "random_states": [0, 1, 12345]})
